@@ -659,6 +659,34 @@ fn plan(ctx: &Ctx) -> Plan {
     }
 }
 
+fn routing_plan() -> super::s4common::Plan {
+    use crate::sub::s4drive::{base_profile, Stepping};
+    let mut p = base_profile("c12-routing");
+    p.topics = vec!["a", "a/b", "a/b/c", "b", "é/x", "a//b", "/a", "€", "A/b", "$x/y"];
+    p.filters = vec!["a/#", "a/+", "+/b", "#", "+", "a/b", "é/#", "é/+", "a//+", "/+", "+/+", "a/b/#", "a/+/c", "A/+", "€"];
+    p.w.subscribe = 16;
+    p.w.unsubscribe = 6;
+    p.w.publish = 30;
+    p.burst_pm = 0;
+    p.persistent_pm = 0;
+    p.hostile = false;
+    p.ops = (30, 120);
+    p.trigger_pm = 0;
+    let mut single = p.clone();
+    single.name = "c12-routing-single";
+    single.stepping = Stepping::Single;
+    super::s4common::Plan {
+        profiles: vec![p, single],
+        directed: vec![],
+        quick_histories: 300,
+        thorough_histories: 30_000,
+        s5: None,
+        enumerate_session_end: None,
+        enumerate_symbols: None,
+        relabel: Some(("C12", vec!["gap", "undelivered", "no-matching-subscription", "spurious", "before-subscription", "duplicate", "after-unsubscribe"])),
+    }
+}
+
 fn run(ctx: &Ctx) -> Stats {
     let plan = plan(ctx);
     let threads = ctx.threads.max(1);
@@ -666,6 +694,10 @@ fn run(ctx: &Ctx) -> Stats {
     let mut st = sharded(ctx, threads, |shard, seed| work(ctx, &plan, &strings, shard, threads, seed));
     // every shard stops after 5 violations; keep 5 in total
     st.violations.truncate(5);
+    // the broker's copy is also consulted through the router's routing cache (DataLog::matches /
+    // publish_filters): seeded subscribe/publish histories over the same alphabet against the real router,
+    // any delivery that disagrees with the reference matcher is this property's violation
+    st.merge(super::s4common::run(ctx, &routing_plan()));
     st.sample(sample("$a/b", "+/b"));
     st.sample(sample("é/a", "+/a"));
     if st.violations.is_empty() {
